@@ -12,13 +12,14 @@ Section DP.
   Variable preds succs : node -> list node.        (* in networkx adjacency order *)
   Hypothesis preds_ok : forall u v, In u (preds v) <-> In (u, v) G.
   Hypothesis f_nonneg : forall e, In e G -> 0 <= f e.
+  Variable keyerr : bool.
 
   Notation pick := (pick f).
   Notation best_pred := (best_pred f).
   Notation step := (dp_step f preds succs).
   Notation init := dp_init.
   Notation back := (back preds).
-  Notation max_bottleneck := (max_bottleneck f preds succs).
+  Notation max_bottleneck := (max_bottleneck f preds succs keyerr).
   Notation sorted := (sorted preds).
   Notation B := bB. Notation P := bP. Notation best := bbest.
   Notation Path := MBPath. Notation NoPath := MBNoPath. Notation NoSink := MBNoSink.
@@ -67,7 +68,7 @@ Section DP.
   Definition src_path (q : list node) (v : node) : Prop :=
     preds (hd v q) = [] /\ incl (pairs (q ++ [v])) G.
 
-  Record Inv (done : list node) (s : st) : Prop := {
+  Record Inv (done : list node) (s : mb_state) : Prop := {
     A_ub : forall v, In v done -> forall q z, src_path q v ->
              (forall e, In e (pairs (q ++ [v])) -> z <= f e) -> zle z (B s v);
     B_src : forall v, In v done -> preds v = [] -> B s v = None;
@@ -231,7 +232,7 @@ Section DP.
     intros S H. unfold max_bottleneck in H.
     pose proof (Inv_fold topo [] init Inv_init S) as I. simpl in I.
     set (s := fold_left step topo init) in *.
-    destruct (best s) as [[v b0]|] eqn:Eb; [|discriminate].
+    destruct (best s) as [[v b0]|] eqn:Eb; [|destruct keyerr; discriminate].
     destruct (b0 =? 0) eqn:E0; [discriminate|]. inversion H; subst b0 p. clear H.
     destruct (Best_in _ _ I v b Eb) as (Hv & Hpv & Hsv & HBv).
     destruct (B_wit _ _ I v Hv Hpv) as (b' & q & HB' & Hq & Hqne & Hql & Hmin & Hex & Hback).
@@ -254,22 +255,19 @@ Section DP.
     - right. exists e'. split; [right|]; assumption.
   Qed.
 
-  Theorem max_bottleneck_complete topo : sorted [] topo -> max_bottleneck topo <> NoSink ->
-    (forall b p, max_bottleneck topo <> Path b p) ->
+  Theorem max_bottleneck_complete topo : sorted [] topo -> max_bottleneck topo = NoPath ->
     forall q w, src_path q w -> q <> [] -> In w topo -> succs w = [] ->
     exists e, In e (pairs (q ++ [w])) /\ f e <= 0.
   Proof.
-    intros S HNS HNP q w Hq Hqne Hw Hsw. unfold max_bottleneck in *.
+    intros S HNP q w Hq Hqne Hw Hsw. unfold Peel.max_bottleneck in HNP.
     pose proof (Inv_fold topo [] init Inv_init S) as I. simpl in I.
     set (s := fold_left step topo init) in *.
-    destruct (best s) as [[v b0]|] eqn:Eb; [|congruence].
-    destruct (b0 =? 0) eqn:E0; [|exfalso; eapply HNP; reflexivity]. apply Z.eqb_eq in E0. subst b0.
     assert (Hpw : preds w <> []).
     { destruct q as [|y q] using rev_ind; [congruence|]. destruct Hq as [_ HG]. rewrite pairs_snoc2 in HG.
       assert (In (y, w) G) by (apply HG; apply in_or_app; right; left; reflexivity). apply preds_ok in H.
       intros E. rewrite E in H. destruct H. }
     destruct (Best_max _ _ I w Hw Hpw Hsw) as (bw & b1 & w1 & H1 & H2 & H3).
-    rewrite Eb in H2. inversion H2; subst b1 w1.
+    rewrite H2 in HNP. destruct (b1 =? 0) eqn:E0; [|discriminate]. apply Z.eqb_eq in E0. subst b1.
     destruct (all_or_ex (pairs (q ++ [w]))) as [Hall|Hex]; [exfalso|assumption].
     pose proof (A_ub _ _ I w Hw q 1 Hq Hall) as Hz. rewrite H1 in Hz. simpl in Hz. lia.
   Qed.
@@ -281,6 +279,13 @@ Section DP.
     pose proof (Inv_fold topo [] init Inv_init S) as I. simpl in I.
     destruct (Best_max _ _ I w Hw Hpw Hsw) as (bw & b1 & w1 & H1 & H2 & H3). rewrite H2 in H.
     destruct (b1 =? 0); discriminate.
+  Qed.
+
+  (* with the switch off (the code as it is) the KeyError outcome does not exist *)
+  Theorem max_bottleneck_never_nosink topo : keyerr = false -> max_bottleneck topo <> NoSink.
+  Proof.
+    intros -> H. unfold Peel.max_bottleneck in H.
+    destruct (bbest (fold_left step topo init)) as [[v b]|]; [destruct (b =? 0)|]; discriminate.
   Qed.
 End DP.
 
